@@ -279,6 +279,20 @@ register(
 )
 
 
+import c18  # noqa: E402
+
+register(
+    "C18",
+    [c18.stage],
+    "generated include graphs in scratch trees: 0..5 library files with include edges of depth <= 4, embed-file bin/hex/sexp in the main program and in libraries, every file placed in 1..2 of 1..3 search directories (shadowed copies have different contents), "
+    "random search-path order, every dialect incl. classic; listing from the real `run -M` (every case) and from the real Python binding's check_dependencies (every third case); files actually read taken from an strace openat log of the real compilation of the same program (run / chialisp.compile_clvm). "
+    "Oracle: every sandbox file read is listed; every listed path is the first match of its name in search order; the compiler itself never reads a shadowed copy. Distinct non-trivial = distinct (entry, dialect, listed set, search order) with at least one dependency that was judged clean",
+    needs=("bins", "py"),
+    min_nontrivial=20,
+    assumptions=["files opened successfully for reading below the scratch tree, other than the main source, are the files whose contents the compiler reads"],
+)
+
+
 def evidence(pid, plan, merged, tier, seed, wall, nviol, known_hits):
     c = merged["counters"]
     cov = {
